@@ -87,6 +87,30 @@ def _descendants(pid):
     return out
 
 
+def _harden_pool_workers():
+    """multiprocessing.Pool workers only catch `Exception`: a BaseException raised by the code under test (asyncio.CancelledError,
+    SystemExit, GeneratorExit) would kill the worker and leave `pool.map` waiting for ever.  Turn it into an ordinary error."""
+    import multiprocessing.pool as mpp
+    if getattr(mpp, '_verif_hardened', False):
+        return
+
+    def wrap(orig):
+        def safe(args):
+            try:
+                return orig(args)
+            except Exception:
+                raise
+            except BaseException as e:  # noqa
+                raise RuntimeError(f'a worker raised {type(e).__name__}: {e}') from None
+        safe.__name__ = orig.__name__
+        safe.__qualname__ = orig.__qualname__
+        safe.__module__ = orig.__module__        # pickled by reference: multiprocessing.pool.mapstar, which is this wrapper now
+        return safe
+    mpp.mapstar = wrap(mpp.mapstar)
+    mpp.starmapstar = wrap(mpp.starmapstar)
+    mpp._verif_hardened = True
+
+
 def start_watchdog(prop, tier, seed, t0):
     """The exploration of a tier has a wall-clock budget far above what it needs on the unchanged tree (quick: seconds to a
     minute; budget 30 min.  thorough: up to an hour; budget 8 h).  A run that exceeds it is not 'slow': the code under test no
@@ -166,12 +190,24 @@ def main(argv):
     ctx = Ctx(prop, tier, seed, common.Model(model_ok))
     watchdog = start_watchdog(prop, tier, seed, t0)
     ctx.give_up = watchdog.fire          # a harness that finds it cannot make progress reports so at once
+    _harden_pool_workers()
     try:
         out = mod.run(ctx)
     except Exception:
         watchdog.cancel()
-        print('INFRA: harness error\n' + traceback.format_exc())
-        return 2
+        # The harness could not drive this tree at all (on the unchanged tree it can: `vp check`).  The property is then not shown
+        # to hold on it: reported like a broken correspondence, with the traceback as the replay, not as an infrastructure error.
+        tb = traceback.format_exc()
+        print('harness error while exploring\n' + tb)
+        path = write_replay(prop, seed, dict(property=prop, kind='harness-error', tier=tier, seed=seed,
+                                             broken=[{'kind': 'correspondence', 'what': 'the harness raised while driving the code',
+                                                      'traceback': tb[-3000:]}]))
+        print(f'VIOLATION property={prop} replay={path} no-failing-input-found')
+        try:
+            write_evidence(prop, tier, seed, dict(obligations=0, discharged=0, note='harness error'), [], time.time() - t0, 1)
+        except Exception:  # noqa
+            pass
+        return 1
 
     watchdog.cancel()
     failures = out.get('failures', [])
